@@ -67,6 +67,12 @@ func c02BuffersBody(x *engine.X) {
 	bb := sonic.NewByteBuffer()
 	bb.Write(payload)
 	bb.Commit(size)
+	// bytes that were put into the buffer but are not committed yet (the next item, still being assembled) are not
+	// part of what WriteTo sends
+	tail := x.Pick(2, "uncommitted bytes behind the payload: none | 7") == 1
+	if tail {
+		bb.Write([]byte("PENDING"))
+	}
 	x.Note("%s %d bytes async=%v stepwise=%v", kind, size, async, stepwise)
 	x.Nontrivial()
 	var got []byte
@@ -127,6 +133,9 @@ func c02BuffersBody(x *engine.X) {
 	drain()
 	if bb.ReadLen() != 0 {
 		x.Inconclusive("the payload did not drain within 30 s")
+	}
+	if tail && bb.WriteLen() != 7 {
+		x.Fail("buffer.WriteTo/uncommitted-bytes-touched", "7 uncommitted bytes sat behind the payload; after it was written WriteLen()=%d", bb.WriteLen())
 	}
 	if reported != size {
 		x.Fail("buffer.WriteTo/count", "the calls reported %d bytes in total for a payload of %d", reported, size)
